@@ -34,6 +34,7 @@ var (
 	ErrDBNotExist        = errors.New("database does not exist")
 	ErrDBNotSelected     = errors.New("database not been selected")
 	ErrDBNameInvalid     = errors.New("invalid database name")
+	ErrCatalogReadOnly   = errors.New("catalog tables cannot be changed directly")
 	ErrFieldAmbiguous    = errors.New("field is ambiguous")
 	ErrFieldNotFound     = errors.New("field not found")
 	ErrTableAlreadyExist = errors.New("table already exists")
@@ -922,6 +923,11 @@ func (rs *RelationService) scanRelation(fileOffset uint64, r *Relation, fields F
 func (rs *RelationService) Insert(tableName string, cols []string, vals []interface{}) (WALBatch, error) {
 	var walLogs WALBatch
 
+	// the catalog is maintained by CREATE TABLE and by root moves only
+	if tableName == pageTableName || tableName == schemaTableName {
+		return walLogs, ErrCatalogReadOnly
+	}
+
 	fileOffset, err := rs.getRelationFileOffset(tableName)
 	if err != nil {
 		return walLogs, err
@@ -999,6 +1005,11 @@ func (rs *RelationService) Insert(tableName string, cols []string, vals []interf
 func (rs *RelationService) Update(tableName string, rowID uint32, cols []string, updateSrc []interface{}) (WALBatch, error) {
 	var walLogs WALBatch
 
+	// the catalog is maintained by CREATE TABLE and by root moves only
+	if tableName == pageTableName || tableName == schemaTableName {
+		return walLogs, ErrCatalogReadOnly
+	}
+
 	fileOffset, err := rs.getRelationFileOffset(tableName)
 	if err != nil {
 		return walLogs, err
@@ -1066,6 +1077,11 @@ func (rs *RelationService) Update(tableName string, rowID uint32, cols []string,
 
 func (rs *RelationService) MarkDeleted(tableName string, rowID uint32) (WALBatch, error) {
 	var walLogs WALBatch
+
+	// the catalog is maintained by CREATE TABLE and by root moves only
+	if tableName == pageTableName || tableName == schemaTableName {
+		return walLogs, ErrCatalogReadOnly
+	}
 
 	fileOffset, err := rs.getRelationFileOffset(tableName)
 	if err != nil {
